@@ -928,6 +928,10 @@ class Pandas:
         if a.kind == 'plist' or b.kind == 'plist':
             if a.kind == 'plist' and a.tag == 'ndarray' or b.kind == 'plist' and b.tag == 'ndarray':
                 pass
+            elif op in ('Eq', 'NotEq'):
+                ex.use('axiom:list == x holds iff x is a list with the same elements in the same order (equality of the list terms)')
+                r = self.to_pv(ex, st, a) == self.to_pv(ex, st, b)
+                return B(r if op == 'Eq' else Not(r))
             else:
                 return NotImplemented
         ta, tb = self.to_pv(ex, st, a), self.to_pv(ex, st, b)
